@@ -132,7 +132,16 @@ def parseCDMs? (s : String) : Option (List (CDM Int)) :=
         pure { size := sz, entries := es }
     | _ => none)
 
+/-- a matrix built by hand: `m = ChunkedDistanceMatrix(n)` followed by `m.add_value(i, j, v)` for every listed entry, in order
+    (the first refused entry raises).  Only meaningful for `n ≥ 2`: for `n ≤ 1` the storage of the real object has length 0 and
+    `add_value` dies with an `IndexError` in `_expand_storage`'s wake -- a state the pipeline never reaches and the model does not cover. -/
+def buildFrom {α : Type} (n : Int) (es : List (Int × Int × α)) : Except Err (CDM α) :=
+  es.foldlM (fun (acc : CDM α) e => acc.addValue e.1 e.2.1 e.2.2) (CDM.empty n)
+
 def handle : List String → Option String
+  | ["build", n, es] => do
+      let n ← parseInt? n; let es ← parseEntries? es
+      pure (showCDM (buildFrom n es))
   | ["numlowertri", n] => do
       let n ← parseInt? n
       pure (toString (numLowerTri n))
